@@ -241,6 +241,8 @@ namespace ratio
             return TRUE_lit;
         else if (string_item *se = dynamic_cast<string_item *>(&i))
             return l.compare(se->l) == 0 ? TRUE_lit : FALSE_lit;
+        else if (var_item *ei = dynamic_cast<var_item *>(&i)) // a variable which might take this very string as a value..
+            return ei->new_eq(*this);
         else
             return FALSE_lit;
     }
@@ -251,6 +253,8 @@ namespace ratio
             return true;
         else if (const string_item *se = dynamic_cast<const string_item *>(&i))
             return l.compare(se->l) == 0;
+        else if (var_item *ei = dynamic_cast<var_item *>(&i)) // a variable which might take this very string as a value..
+            return ei->equates(*this);
         else
             return false;
     }
